@@ -107,7 +107,7 @@ Qed.
 Fixpoint stmt_refs (s : stmt) : list N :=
   match s with
   | SNop | SPanic _ => []
-  | SSimple _ _ _ p | SString _ _ _ _ p | SCmp _ _ _ _ p | SUnit _ _ _ p | SRange _ _ _ p
+  | SSimple _ _ _ p | SString _ _ _ _ p | SCmp _ _ _ _ p | SUnit _ _ _ p | SRange _ _ _ _ p
   | SRegex _ _ _ p | SLike _ _ _ p | SClosure _ _ _ p | SMapLen _ _ _ p => [ps_node p]
   | SVariant _ _ _ _ body p | SStruct _ _ _ _ _ body p | SSlice _ _ body p => flat_map stmt_refs body ++ [ps_node p]
   | SSeq body | STuple _ _ body => flat_map stmt_refs body
